@@ -307,13 +307,15 @@ def op_int(op, n, vs, ws):
     if op == 'parity':
         return _parity8(vs[0])
     # ---- operators produced by the x86 lifter
-    if op in ('umul08', 'umul16_lo', 'umul32_lo', '*lo'):
-        # umul08: 8x8 -> 16-bit product delivered at operand width 16 by the lifter (see width note)
+    if op == 'umul08':
+        # 8 x 8 -> 16 bits: the low bytes of the operands (the lifter passes eax and the 8-bit operand)
+        return ((vs[0] & 0xff) * (vs[1] & 0xff)) & 0xffff
+    if op in ('umul16_lo', 'umul32_lo', '*lo'):
         return (vs[0] * vs[1]) & m
     if op in ('umul16_hi', 'umul32_hi', '*hi'):
         return ((vs[0] * vs[1]) >> n) & m
     if op in ('imul08',):
-        return (sx(vs[0], n) * sx(vs[1], ws[1])) & m
+        return (sx(vs[0] & 0xff, 8) * sx(vs[1] & 0xff, 8)) & 0xffff
     if op in ('imul16_lo', 'imul32_lo'):
         return (sx(vs[0], n) * sx(vs[1], n)) & m
     if op in ('imul16_hi', 'imul32_hi'):
@@ -353,12 +355,12 @@ def op_int(op, n, vs, ws):
         return (big & m) if op.endswith('rez') else (big >> n) & 1
     if op == 'bsf':
         # args = (default, source)
-        d, s = vs
+        s = vs[-1]
         if s == 0:
             raise Undefined('bsf 0')
         return (s & -s).bit_length() - 1
     if op == 'bsr':
-        d, s = vs
+        s = vs[-1]
         if s == 0:
             raise Undefined('bsr 0')
         return s.bit_length() - 1
